@@ -32,6 +32,20 @@ fast path without a barrier refuted by TLC) and the PLANS - which calls (entry p
 which value.  Each plan is executed in FRESH child processes (the test binary re-executes itself), under the race
 detector and without: race reports involving the repository, panics / crashes, results that differ from what the same
 bytes give alone (at the first use, or afterwards) are violations.
+
+spec/codec/X509ParseList.tla: certificate lists as containers of REVOKED ENTRIES and ARMOUR.  The list parsers walk through
+every crlEntryExtension of every entry and the list's own extensions and COLLECT findings of two ranks (warning: an
+interpreted extension with the criticality RFC 5280 does not prescribe; fatal: an unreadable value, an uninterpreted critical
+extension); the collection decides: ListCoherent, WarningsKeepObject, WarningsReported, FatalSurfaces, OpaqueIsBinary (ParseCRL /
+ParseDERCRL do not interpret), no lax mode (C1).  Every entry point has a READER in front of its DER stage (der / tolerant /
+pemOne / pemChain / pemAny / pemPool) that is Total on every armour of the table: DER, complete PEM (CRLF, headers, text or a
+second block behind it), labels of another kind, inputs that only BEGIN like a block (header line, END line missing / cut / of
+another label, body cut, bad base64, prefix glued to DER or garbage), bytes before the block; ArmourTransparent, NotABlockIsFatal.
+Two refuted variants (an entry with ANY finding is dropped: ListCoherent; the prefix taken for a block: Total).  Case space: entry
+point (the twelve DER ones and five PEM ones) x 22 armours x payload (envelope defect x lists of up to three entries over 24 extension
+states x list extensions over 48; 10052 cases quick, 47800 thorough); the machine (one step per stage / entry / extension) against the contract stated at once
+(MachineMeetsVerdict).  Binding: every case is built with the independent DER tree and the standard library's PEM encoder, and
+replayed (TestList); the armour table is checked against what encoding/pem finds, clean lists against crypto/x509.
 """
 import json
 import os
@@ -61,6 +75,12 @@ ASSUME = [
     "race detector, 2 (thorough 24) without); named clause StdEllipticInit: race reports whose write is under crypto/elliptic.initAll and whose read is under "
     "crypto/elliptic.matchesSpecificCurve (go1.23 standard library: the custom-curve path compares with the NIST curves' parameters without passing their once; "
     "the comparison's outcome is unaffected) are counted, not judged",
+    "certificate lists: one to three revoked entries, each with no, one or two crlEntryExtensions (reasonCode, invalidityDate, certificateIssuer, an "
+    "uninterpreted one) x critical / not x value good / another type / trailing bytes / empty; list extensions (AKI, issuerAltName, cRLNumber, delta, "
+    "issuingDistributionPoint, freshestCRL, AIA, uninterpreted) one or two at a time; quick: one and two entries over all 25 entry states, three over 7 representatives (thorough: 13), pairs of extensions over 8 (thorough: all 24 / 48); named "
+    "clauses: C1 the list parsers have no lax mode, A1 bytes before the BEGIN line are free (any coherent outcome), A2 what follows the first block and RFC 1421 "
+    "headers are ignored by ParseCRL / ParseCertificateList, E1 CertificatesFromPEM without any block = empty chain and no error, K1 the label of the block "
+    "PublicKeyFromPEM reads is free; an empty extnValue and a twenty-octet CRL number are free; signatures of the built lists are not valid (no parser checks them)",
     "'for all byte strings' is sampled: testdata corpus, well-formed objects of every kind and seeded byte/TLV mutations; "
     "non-termination = no return within 10 s",
 ]
@@ -200,6 +220,42 @@ def first_use_plans(ctx, kcases):
     return plans
 
 
+LIST_ENTRIES = 17
+
+
+def list_cases(ctx):
+    """X509ParseList.tla: certificate lists (entries x extensions) and armour; per case the allowed outcome classes."""
+    r = ctx.tlc("codec", "MCX509ParseList", ctx.pick("X509ParseList.cfg", "X509ParseListThorough.cfg"), workers=1, timeout=3000)
+    rv = ctx.tlc("codec", "MCX509ParseList", "X509ParseListGiveUp.cfg", workers=1, timeout=900, expect_violation=True, count=False)
+    if rv.violated != "ListCoherent":
+        raise Infra("giving up on an entry with any finding is not refuted by ListCoherent (violated: %s)" % rv.violated)
+    rv = ctx.tlc("codec", "MCX509ParseList", "X509ParseListNoGuard.cfg", workers=1, timeout=900, expect_violation=True, count=False)
+    if rv.violated != "Total":
+        raise Infra("the reader without the block guard is not refuted by Total (violated: %s)" % rv.violated)
+    arms = r.records.get("LARM", [])
+    cases = {}
+    for rec in r.records.get("LCASE", []):
+        key = json.dumps([rec["e"], rec["arm"], rec["p"]], sort_keys=True)
+        c = cases.setdefault(key, {"e": rec["e"], "arm": rec["arm"], "p": rec["p"], "reader": rec["reader"], "allowed": set(), "v": set(rec["v"])})
+        c["allowed"].add(rec["r"])
+    if not cases or len(arms) < 20:
+        raise Infra("the list specification exported %d cases, %d armours" % (len(cases), len(arms)))
+    out = []
+    for key in sorted(cases):
+        c = cases[key]
+        if c["allowed"] != c["v"] or not c["allowed"] <= set(CLASSES) | {"empty"}:
+            raise Infra("list case %s: the machine reaches %s, the contract stated at once gives %s" % (key, sorted(c["allowed"]), sorted(c["v"])))
+        del c["v"]
+        c["allowed"] = sorted(c["allowed"])
+        out.append(c)
+    if len({c["e"] for c in out}) != LIST_ENTRIES:
+        raise Infra("list cases do not cover every entry point: %s" % sorted({c["e"] for c in out}))
+    for e in {c["e"] for c in out}:
+        if {c["arm"] for c in out if c["e"] == e} != {a["name"] for a in arms}:
+            raise Infra("entry point %s is not met in every armour" % e)
+    return out, arms
+
+
 def run(ctx, replay=None):
     ctx.assumptions += ASSUME
     if replay:
@@ -215,6 +271,12 @@ def run(ctx, replay=None):
     ctx.log("keys: %d (entry point, key kind, defect) cases; first use: %d plans" % (len(kcases), len(plans)))
     kp = ctx.write_ndjson("keycases.ndjson", kcases)
     fp = ctx.write_ndjson("firstuse-plans.ndjson", plans)
+    # 0b. certificate lists (entries x extensions) and armour, all seventeen entry points
+    lcases, arms = list_cases(ctx)
+    ctx.log("lists and armour: %d (entry point, armour, payload) cases, %d armours" % (len(lcases), len(arms)))
+    lp = ctx.write_ndjson("listcases.ndjson", lcases)
+    la = ctx.write_ndjson("listarms.ndjson", arms)
+    ctx.go_test("c11", run="TestList$", env={"VERIF_LISTCASES": lp, "VERIF_LISTARMS": la}, timeout=3000, name="c11list")
     # 1. the case space: templates x mutations, Coherent and the other invariants on every state, CASE export
     r = ctx.tlc("codec", "MCX509Parse", ctx.pick("X509ParseQuick.cfg", "X509ParseThorough.cfg"), workers=1, timeout=3000)
     groups, ncases = build_cases(ctx, r)
